@@ -196,7 +196,7 @@ type mappingT struct {
 	secret         string
 	active         bool
 	revoked        bool
-	expired        bool
+	expired        int // 0 = never expires, 1 = expired an hour ago, 2 = expires in an hour
 }
 
 type caseT struct {
@@ -240,7 +240,7 @@ func (c *caseT) String() string {
 		if m.active {
 			st = "a"
 		}
-		fmt.Fprintf(&sb, " %s %d %d %s %s %s %s", m.id, m.listen, m.target, dash(m.secret), st, b2s(m.revoked), b2s(m.expired))
+		fmt.Fprintf(&sb, " %s %d %d %s %s %s %s", m.id, m.listen, m.target, dash(m.secret), st, b2s(m.revoked), strconv.Itoa(m.expired))
 	}
 	fmt.Fprintf(&sb, " conn %d %d req %s %s %s ts ", c.hs, c.cid, dash(c.rmid), dash(c.rsec), dash(c.rtok))
 	switch c.ts {
@@ -288,7 +288,7 @@ func parseCase(s string) (c *caseT, err error) {
 		m.secret = undash(next())
 		m.active = next() == "a"
 		m.revoked = next() == "1"
-		m.expired = next() == "1"
+		m.expired = int(atoi(next()))
 		c.maps = append(c.maps, m)
 	}
 	expect("conn")
@@ -317,6 +317,7 @@ func parseCase(s string) (c *caseT, err error) {
 
 const tunnelID = "verif-tunnel-01"
 const marker = "SRC->DATA:c04-marker"
+const ping = "served-PING"
 
 type world struct {
 	ctx    context.Context
@@ -378,8 +379,12 @@ func toModel(m mappingT) *models.PortMapping {
 	if m.active {
 		pm.Status = models.MappingStatusActive
 	}
-	if m.expired {
+	switch m.expired {
+	case 1:
 		t := time.Now().Add(-time.Hour)
+		pm.ExpiresAt = &t
+	case 2:
+		t := time.Now().Add(time.Hour)
 		pm.ExpiresAt = &t
 	}
 	return pm
@@ -502,7 +507,7 @@ func runCaseInner(c *caseT) string {
 	if c.ts == "bridge" {
 		if m, ok := final[c.tsMid]; ok {
 			s := m
-			s.active, s.revoked, s.expired = true, false, false
+			s.active, s.revoked, s.expired = true, false, 0
 			setup = &s
 		} else {
 			setup = &mappingT{id: c.tsMid, listen: 901, target: 902, secret: "tmp-secret", active: true}
@@ -546,6 +551,17 @@ func runCaseInner(c *caseT) string {
 			}
 			if _, _, tg, _ := w.sm.VerifBridgeEnds(tunnelID); tg != t.id {
 				return "setup-failed:target-attach"
+			}
+			// the tunnel is being served: bytes flow from the source to the legitimate target
+			src.cli.Write([]byte(ping))
+			for dl := time.Now().Add(3 * time.Second); ; {
+				if _, rest := readAck(t.cli.snapshot()); bytes.Contains(rest, []byte(ping)) {
+					break
+				}
+				if !time.Now().Before(dl) {
+					return "setup-failed:served-flow"
+				}
+				time.Sleep(200 * time.Microsecond)
 			}
 		}
 		if m, ok := final[setup.id]; ok {
@@ -692,7 +708,7 @@ func matrix() []*caseT {
 					case "revoked":
 						m.revoked, m.active = true, false
 					case "expired":
-						m.expired = true
+						m.expired = 1
 					case "inactive":
 						m.active = false
 					}
@@ -739,15 +755,17 @@ func randomCases(r *vc.Rand, n int) []*caseT {
 		}
 		for j := 0; j < k; j++ {
 			m := mappingT{id: ids[perm[j]], listen: vc.Pick(r, clients), target: vc.Pick(r, clients), secret: vc.Pick(r, secrets), active: true}
-			switch r.Intn(8) {
+			switch r.Intn(9) {
 			case 0:
 				m.revoked, m.active = true, false
 			case 1:
 				m.revoked = true // revoked flag with status still active
 			case 2:
-				m.expired = true
+				m.expired = 1
 			case 3:
 				m.active = false
+			case 4:
+				m.expired = 2
 			}
 			c.maps = append(c.maps, m)
 		}
